@@ -134,6 +134,9 @@ MonEnd(M, ret, panic) ==
           \* a protocol-initiated request may also be answered at once by a dial failure
           /\ ~(s.a \in {"hdial", "hdial_addr"} /\ M.protoFail)
     THEN Fail(M, "dial accepted but nothing is being attempted")
+  \* C06: the outgoing limit may only refuse a dial when it is actually reached
+  ELSE IF s.a \in {"dial", "dial_addr", "probe"} /\ ret = "limit" /\ Below(Cardinality(AccOf(M, "out")), M.maxOut)
+    THEN Fail(M, "dial refused by the outgoing limit although below it")
   \* wedge probe: issued only at quiescence for a peer without a connection, after a fresh
   \* address was added; it must really start an attempt unless the outgoing limit is reached
   ELSE IF s.a = "probe" /\ ~Tainted(M, s.p) /\ Below(Cardinality(AccOf(M, "out")), M.maxOut) /\ ~M.newAtt
